@@ -699,8 +699,19 @@ class Evaluator:
             tail = right
             right = copy.copy(right)
             right.order_by, right.limit, right.offset = None, None, None
-        l = self.query(q.left, outer)
-        r = self.query(right, outer)
+        # a WITH clause written before a set operation names its CTEs for every member; the repo's parser hangs it on the first member
+        first = q.left
+        while isinstance(first, (A.Union, A.Intersect, A.Except)):
+            first = first.left
+        saved = dict(self.extra)
+        try:
+            if isinstance(first, A.Select) and first.cte:
+                for cte in first.cte:
+                    self.extra[str(cte.name.parts[-1]).lower()] = self.query(cte.query, outer)
+            l = self.query(q.left, outer)
+            r = self.query(right, outer)
+        finally:
+            self.extra = saved
         if l.width() != r.width():
             raise Unsupported('set operation arity')
         out = self._setop_rows(q, l, r)
